@@ -112,6 +112,18 @@ func writesBackslashFirst(info *types.Info, c *swClause) bool {
 			if s, ok := constStr(info, call.Args[0]); ok {
 				return strings.HasPrefix(s, `\`)
 			}
+			// "\\" + string(r): the leftmost operand of a concatenation
+			e := ast.Unparen(call.Args[0])
+			for {
+				be, ok := e.(*ast.BinaryExpr)
+				if !ok || be.Op != token.ADD {
+					break
+				}
+				e = ast.Unparen(be.X)
+			}
+			if s, ok := constStr(info, e); ok {
+				return strings.HasPrefix(s, `\`)
+			}
 		}
 		return false
 	}
